@@ -378,6 +378,8 @@ def go_pattern_list(case, path):
 
     def add(depth, content):
         for ln, l in physical_lines(content):
+            if ln == 1 and l.startswith(BOM):
+                l = l[3:]                       # readIgnoreFile skips a byte order mark (so does git)
             if not l.startswith(b"#") and l.strip() != b"":
                 out.append((depth, ln, l, content))
     if case.get("exclude") is not None:
@@ -404,7 +406,7 @@ def git_source(case, src, ln):
                 content = bytes.fromhex(f["content"])
     for n, l in physical_lines(content):
         if n == ln:
-            return depth, l, content
+            return depth, (l[3:] if n == 1 and l.startswith(BOM) else l), content
     return depth, None, content
 
 
